@@ -137,7 +137,7 @@ def build(rng, tier):
         for vid, text, kind, vmap in vs:
             progs[vid] = p      # the model always runs the base AST; variants differ only in the Rust text
             mods.append((vid, text))
-        for j in range(4 if tier == "quick" else 10):
+        for j in range((12 if has_repeat_join(p) else 4) if tier == "quick" else 16):
             r2 = rng.fork(f"{pid}i{j}")
             inp = gen.gen_input(r2, p, max_rows=8)
             spec = engcheck.spec_sets(p, inp)
